@@ -79,6 +79,9 @@ def kernel_teardown(ctx, esc, rule):
     ctx.check(len(sends) == 1 and bool(handled) and not rer, rule,
               'delete_sa tolerates a kernel refusal (already gone) and reports it', key=(rule, 'delete-tolerant'), site=ctx.site(dsa, dsa.node),
               detail={'raises': [tq.text(t, 100) for t in rer]})
+    # ... nor can the report: what it prints of its integer arguments is the integers (`proto.name` of socket.IPPROTO_ESP raises)
+    common.member_attr_of_library_int(ctx, rule, ['xfrm.Xfrm.delete_sa', 'xfrm.Xfrm.delete_child_sa', 'xfrm.Xfrm.create_sa',
+                                                   'xfrm.Xfrm.create_child_sa', 'xfrm.Xfrm.create_policy'])
     # ... and building the request cannot fail either: the SPI it names fits the 4-octet field of the kernel's SA identifier (a SPI of
     # another length, taken from a peer's proposal, makes ctypes raise TypeError - at installation and again at every removal attempt)
     from .c05 import ah_esp_spi_width
